@@ -13,6 +13,8 @@ Key grammar
     w:<n>            DictWrapper around its own dict {"k": n}   (identity hashed)
     o:<n>            Obj(guid="g<n>", label="o<n>")  (identity hashed unless the
                      tree has the guid hook, then data_id == "g<n>")
+    u:<n>            native dict {"guid": "gu<n>", "u": n}: unhashable, usable only with
+                     an explicit data_id or in a tree whose id callback keys it
     f:<n> / g:<n>    nutree.fs.FileSystemEntry file "f<n>.txt" / folder "g<n>"
                      (identity hashed; only in runs with a FileSystemTree slot)
     r:<...>          objects created by a restart (re-bound by the harness)
@@ -50,6 +52,8 @@ def guid_hook(tree, data):
     every string node of a hook tree carries a custom (non-hash) data_id."""
     if hasattr(data, "guid"):
         return data.guid
+    if isinstance(data, dict):
+        return data["guid"]  # "Adding Native Dictionaries" in ug_objects.rst
     if isinstance(data, str):
         return "L:" + data.lower()
     return hash(data)
@@ -104,6 +108,8 @@ class Pool:
             return self._nt.DictWrapper({"k": int(rest)})
         if flavour == "o":
             return Obj("g" + rest, "o" + rest)
+        if flavour == "u":
+            return {"guid": "gu" + rest, "u": int(rest)}
         if flavour in ("f", "g"):
             import importlib
 
@@ -130,6 +136,8 @@ def encode_value(obj) -> dict:
         return {"type": "obj", "guid": obj.guid, "name": obj.label}
     if obj.__class__.__name__ == "DictWrapper":
         return {"type": "wrap", "v": obj._dict["k"]}
+    if isinstance(obj, dict):
+        return {"type": "udict", "guid": obj["guid"], "v": obj["u"]}
     if obj.__class__.__name__ == "FileSystemEntry":
         # exactly what FileSystemTree.serialize_mapper stores
         if obj.is_dir:
@@ -157,6 +165,8 @@ def decode_value(d: dict, nutree_mod):
         return Obj(d["guid"], d["name"])
     if t == "wrap":
         return nutree_mod.DictWrapper({"k": int(d["v"])})
+    if t == "udict":
+        return {"guid": d["guid"], "u": int(d["v"])}
     raise TypeError(t)
 
 
@@ -186,6 +196,20 @@ def flavour_of(obj) -> str:
         return "d"
     if isinstance(obj, Obj):
         return "o"
+    if isinstance(obj, dict):
+        return "u"
     if obj.__class__.__name__ == "FileSystemEntry":
         return "f"
     return "w"
+
+
+_UNHASHABLE = object()
+
+
+def dhash(obj):
+    """hash(obj), or a value equal to nothing else for unhashable data (so that
+    `data_id != dhash(data)` reads "custom id")."""
+    try:
+        return hash(obj)
+    except TypeError:
+        return _UNHASHABLE
